@@ -49,6 +49,22 @@ theorem global_first_max (thr : R) (h w : Nat) (img : Nat → Nat → R) (x y : 
     rw [Nat.div_add_mod' (flatArg h w img) w] at hbefore
     exact hbefore
 
+/-- **Unravelling is exact for maps of any size**: the flat index of cell `(row, col)` of a map of width
+`w` unravels to exactly `(x, y) = (col, row)` — no bound such as 2^24 cells (the model, like the code,
+works on integer indices; a float32 detour would break this above 2^24). -/
+theorem global_unravel_exact (w row col : Nat) (hcol : col < w) : unravel w (row * w + col) = (col, row) := by
+  unfold unravel
+  rw [flat_mod hcol, flat_div hcol]
+
+/-- **A unique strict maximum is reported at its own cell, whatever the map size**: if one cell is
+strictly above every other cell and not below the threshold, the detector reports exactly that cell
+with its value (one-hot maps with more than 2^24 cells are the harness's `large_map` family). -/
+theorem global_rough_strict_max (thr : R) (h w : Nat) (img : Nat → Nat → R) (cx cy : Nat) (hcx : cx < w) (hcy : cy < h)
+    (hmax : ∀ i j, i < h → j < w → (i ≠ cy ∨ j ≠ cx) → img i j < img cy cx) (hthr : ¬ img cy cx < thr) :
+    globalRough1 thr h w img = ⟨some (cx, cy), img cy cx⟩ := by
+  obtain ⟨h1, h2⟩ := flatArg_of_strict_max (img := img) hcx hcy hmax
+  rw [globalRough1_eq, h1, h2, threshold_some _ _ _ _ hthr]
+
 /-- non-vacuity + the F-C07 witness under the repair: maxima at (x0,y3) and (x3,y0) → (3,0). -/
 example : globalRough1 (R := Rat) (1/10) 4 4 (fun i j => if (i = 3 ∧ j = 0) ∨ (i = 0 ∧ j = 3) then 1 else 0)
     = ⟨some (3, 0), 1⟩ := by decide +kernel
